@@ -109,7 +109,7 @@ func main() {
 		add("internal/bufferpool/bufferpool.go", importRewrite(`"sync"`, `sync "`+modpfx+`vpool"`))
 	}
 	if *variant == "thread" {
-		for _, f := range []string{"torrent/session.go", "torrent/torrent.go"} {
+		for _, f := range []string{"torrent/session.go", "torrent/torrent.go", "internal/piececache/cache.go", "internal/piececache/item.go"} {
 			add(f, importRewrite(`"sync"`, `sync "go.etcd.io/bbolt/vsync"`))
 		}
 	}
